@@ -90,3 +90,68 @@ Definition continue_refinement (cv : cvariant) (st : cstate) (dens : list (list 
                    (classificate cv (c_class_labels st) dens) (c_performed st))
     else None
   end.
+
+(* ---------------------------------------------------------------- pre-scaled input and the accumulated offset (phase 3)
+   DataSet.same_scaling compares the scaling RANGE and the accumulated FACTOR, not the accumulated OFFSET.  With the offset bookkeeping of
+   Model/DataSetOff.v (class DataSet keeps _scaling_offset since the C18 repair) the proposed repair of _internal_scaling
+   (fixes/C19-internal-scaling-compares-offset.patch) also compares the accumulated affine maps (factor AND offset) of the learning data and
+   of an already scaled input.  chk = false: the code as found. *)
+From SG Require Import Model.DataSetOff.
+Definition internal_scaling_o (chk : bool) (v : variant) (st : cstate) (sd d : dso) : ds * bool :=
+  if chk && scaled (base d) && negb (same_affine sd d) then (base d, true) else internal_scaling v st (base d).
+(* wire form: both offsets are floats of the implementation and are compared bitwise there, so the outcome of the comparison is an input *)
+Definition call_r (reject : bool) (v : variant) (cv : cvariant) (st : cstate) (d : ds) (dens : list (list Qc)) : cstate * outcome :=
+  if scaled d && reject then (st, ORaise d) else call v cv st d dens.
+Definition test_data_r (reject : bool) (v : variant) (cv : cvariant) (st : cstate) (d : ds) (dens : list (list Qc)) : cstate * outcome :=
+  if scaled d && reject then (st, ORaise d) else test_data v cv st d dens.
+
+(* ---------------------------------------------------------------- one_vs_others (phase 3): DataSet.split_one_vs_others
+   for j in get_labels(): classificator j is trained on ALL learning samples with the signed label 1 (own class) or
+   max(-1, -(class_numbers[j] / others)) (every other class), where class_numbers = [count of l for l in get_labels()] is indexed BY THE
+   LABEL VALUE j and others = sum(class_numbers) - class_numbers[j].  None = the Python raises (IndexError: a label >= the number of
+   labels; ZeroDivisionError: a single class).  lo = get_labels() in its iteration order (input, as above). *)
+Definition count_label (j : Z) (r : list sample) : Z := Z.of_nat (length (with_label j r)).
+Definition class_numbers (lo : list Z) (r : list sample) : list Z := map (fun l => count_label l r) lo.
+Definition sum_Z (l : list Z) : Z := fold_right Z.add 0%Z l.
+Definition ovo_weight (lo : list Z) (r : list sample) (j : Z) : Qc :=
+  let cn := class_numbers lo r in
+  let nj := nth (Z.to_nat j) cn 0%Z in
+  Qc_max (- (1)) (- (Q2Qc (inject_Z nj) / Q2Qc (inject_Z (sum_Z cn - nj)))).
+Definition ovo_piece (lo : list Z) (r : list sample) (j : Z) : list (row * Qc) :=
+  map (fun s => (fst s, if Z.eqb (snd s) j then 1 else ovo_weight lo r j)) r.
+Definition ovo_raises (lo : list Z) (r : list sample) : bool :=
+  existsb (fun j => Z.ltb j 0 || Nat.leb (length lo) (Z.to_nat j)
+                    || Z.eqb (sum_Z (class_numbers lo r) - nth (Z.to_nat j) (class_numbers lo r) 0%Z) 0) lo.
+Definition split_one_vs_others (lo : list Z) (r : list sample) : option (list (list (row * Qc))) :=
+  if ovo_raises lo r then None else Some (map (ovo_piece lo r) lo).
+(* deo = DataSet.density_estimation(one_vs_others=True) as a function of the signed training set *)
+Definition classify_ovo (cv : cvariant) (deo : list (row * Qc) -> row -> Qc) (lo : list Z) (r : list sample) (pts : list row) : list Z :=
+  classificate cv lo (densities_at (map (fun j => deo (ovo_piece lo r j)) lo) pts).
+
+(* ---------------------------------------------------------------- the whole object with TRAINED classificators (phase 3, end-to-end)
+   The densities are no longer inputs: they are those of the classificators trained on the learning data (estimator de, label order lo),
+   evaluated at the samples the call retains.  The system state adds the testing SAMPLES (cstate keeps only their labels) and the current
+   estimator (continue_dimension_wise_refinement refines it: de'). *)
+Definition trained_dens (de : ds -> row -> Qc) (lo : list Z) (learn : ds) (pts : list row) : list (list Qc) :=
+  densities_at (classificators de lo learn) pts.
+Definition call_trained (v : variant) (cv : cvariant) (de : ds -> row -> Qc) (lo : list Z) (learn : ds) (st : cstate) (d : ds) : cstate * outcome :=
+  call v cv st d (trained_dens de lo learn (values (fst (internal_scaling v st d)))).
+Definition test_trained (v : variant) (cv : cvariant) (de : ds -> row -> Qc) (lo : list Z) (learn : ds) (st : cstate) (d : ds) : cstate * outcome :=
+  test_data v cv st d (trained_dens de lo learn (values (snd (split_without_labels (fst (internal_scaling v st d)))))).
+Record sys := mkSys { s_st : cstate; s_test : list sample; s_de : ds -> row -> Qc }.
+Inductive sop := SCall (d : ds) | STest (d : ds) | SEval | SCont (de' : ds -> row -> Qc).
+Definition sstep (v : variant) (cv : cvariant) (lo : list Z) (learn : ds) (s : sys) (o : sop) : sys :=
+  match o with
+  | SCall d => mkSys (fst (call_trained v cv (s_de s) lo learn (s_st s) d)) (s_test s) (s_de s)
+  | STest d =>
+    match test_trained v cv (s_de s) lo learn (s_st s) d with
+    | (st', OTest d1 _ _) => mkSys st' (s_test s ++ rows (snd (split_without_labels d1))) (s_de s)
+    | (st', _) => mkSys st' (s_test s) (s_de s)
+    end
+  | SEval => s
+  | SCont de' =>
+    match continue_refinement cv (s_st s) (trained_dens de' lo learn (map fst (s_test s))) with
+    | Some st' => mkSys st' (s_test s) de'
+    | None => s
+    end
+  end.
